@@ -170,6 +170,7 @@ let () =
                 if kind = KScores then z_scores_lobj (nat_of_int l_) (nat_of_int m_) (parse_zlist pos)
                 else LStriped (kind, nat_of_int (int_of_string r), parse_zlist pos, nat_of_int (int_of_string maxi))
               | _ -> failwith "bad obj" in
+            if not (z_lobj_wfb lo) then failwith "reference object of the harness is not well formed (lobj_wfb)";
             (* default element: the wildcard symbol for symbol matrices, 0 otherwise *)
             let dflt = match kind with KEnc | KStriped -> z_of_int (kk - 1) | _ -> Z0 in
             let poison = z_of_int (-1) in
